@@ -637,6 +637,11 @@ class ExprMixin:
                 # so no conditional term is needed (Seq-sorted ite terms also trigger a z3 recfun soundness bug)
                 r = z3.SubSeq(t, z3.IntVal(0), z3.IntVal(chi)) if not isinstance(obj, VStr) else z3.SubString(t, z3.IntVal(0), z3.IntVal(chi))
                 return VStr(r, is_bytes=obj.is_bytes) if isinstance(obj, VStr) else VList(obj.elem, seq=r)
+            if (lo is None or clo == 0) and isinstance(chi, int) and not isinstance(chi, bool) and chi < 0:
+                # xs[:-K], K > 0: the first len-K elements; seq.extract / str.substr yield the empty sequence for a
+                # non-positive length by definition (K >= len), exactly Python's result
+                r = z3.SubSeq(t, z3.IntVal(0), n + chi) if not isinstance(obj, VStr) else z3.SubString(t, z3.IntVal(0), n + chi)
+                return VStr(r, is_bytes=obj.is_bytes) if isinstance(obj, VStr) else VList(obj.elem, seq=r)
             lo_t = z3.IntVal(0) if lo is None else self._clamp(self._norm_index(coerce(lo, Int).t, n), n)
             hi_t = n if hi is None else self._clamp(self._norm_index(coerce(hi, Int).t, n), n)
             ln = z3.If(hi_t > lo_t, hi_t - lo_t, z3.IntVal(0))
@@ -745,7 +750,13 @@ class ExprMixin:
             from .ty import freeze_refs
             k = coerce(key, Str)
             freeze_refs(obj)
-            obj.t = z3.Store(obj.t, k.t, to_val(v))
+            try:
+                val = to_val(v)
+            except Unsupported:
+                # a value with no Val representation (a Path, an object): stored as an UNKNOWN present value
+                val = z3.Const(fresh_name("stored"), ValSort)
+                self.assume(val != ValSort.Absent)
+            obj.t = z3.Store(obj.t, k.t, val)
             return
         if isinstance(obj, VAny) and isinstance(key, VStr):
             from .ty import VAnyRef
